@@ -121,6 +121,28 @@ MUTANTS = [
     ("walk_internal: `&&` -> `||` in the loop condition", "semantic", SL,
      "            || (self.state.offset < self.path_tpc.offset_end()\n                && self.state.speed != si::Velocity::ZERO)\n        {",
      "            || (self.state.offset < self.path_tpc.offset_end()\n                || self.state.speed != si::Velocity::ZERO)\n        {"),
+    # the check after `self.step()?` in the loop of walk_internal (fix c76dec1; part "loop-ensure")
+    ("walk_internal: stopped-short check no longer asks for a zero TARGET speed (dropped conjunct)", "semantic", SL,
+     "                    && self.state.speed_target == si::Velocity::ZERO\n", ""),
+    ("walk_internal: stopped-short check `offset < end - 1000 ft` -> `<=`", "semantic", SL,
+     "&& self.state.offset < self.path_tpc.offset_end() - 1000.0 * uc::FT),",
+     "&& self.state.offset <= self.path_tpc.offset_end() - 1000.0 * uc::FT),"),
+    ("walk_internal: stopped-short check reads the speed AFTER the step twice (`speed_prev` -> `self.state.speed`)",
+     "semantic", SL, "!(speed_prev == si::Velocity::ZERO", "!(self.state.speed == si::Velocity::ZERO"),
+    ("walk_internal: `speed_prev` is the previous TARGET speed", "semantic", SL,
+     "let speed_prev = self.state.speed;", "let speed_prev = self.state.speed_target;"),
+    ("walk_internal: `speed_prev` read AFTER the step (statement order)", "semantic", SL,
+     "            let speed_prev = self.state.speed;\n            self.step()?;\n",
+     "            self.step()?;\n            let speed_prev = self.state.speed;\n"),
+    ("walk_internal: stopped-short check negated once more (`!(` dropped)", "semantic", SL,
+     "                !(speed_prev == si::Velocity::ZERO", "                (speed_prev == si::Velocity::ZERO"),
+    ("walk_internal: the stopped-short check removed (defect c76dec1 again: the loop never ends)", "semantic", SL,
+     "            ensure!(\n                !(speed_prev == si::Velocity::ZERO\n                    && self.state.speed == si::Velocity::ZERO\n"
+     "                    && self.state.speed_target == si::Velocity::ZERO\n"
+     "                    && self.state.offset < self.path_tpc.offset_end() - 1000.0 * uc::FT),\n"
+     "                \"{}\\nTrain {} has stopped at offset {:?}, short of the end of its path at {:?}, and its target speed is zero: "
+     "it cannot reach its destination\",\n                format_dbg!(),\n                self.train_id,\n"
+     "                self.state.offset,\n                self.path_tpc.offset_end()\n            );\n", ""),
     ("utils::almost_le: `1.0 + epsilon` -> `1.0 - epsilon`", "semantic", SRC + "utils/mod.rs",
      "val1 < val2 * (1.0 + epsilon) || val1 < val2 + epsilon", "val1 < val2 * (1.0 - epsilon) || val1 < val2 + epsilon"),
     # ---- harmless rewrites: must still build
@@ -138,6 +160,10 @@ MUTANTS = [
     ("harmless: fric brake: a new local for the ramp rate", "harmless", FB,
      "        self.state.force_max_curr =\n            (self.state.force + self.force_max / self.ramp_up_time * dt).min(self.force_max);",
      "        let ramp = self.force_max / self.ramp_up_time;\n        self.state.force_max_curr = (self.state.force + ramp * dt).min(self.force_max);"),
+    ("harmless: walk_internal: local `speed_prev` renamed", "harmless", SL, "speed_prev", "v_before", "all"),
+    ("harmless: walk_internal: a further (unused) local in front of the step", "harmless", SL,
+     "            let speed_prev = self.state.speed;\n",
+     "            let offset_prev = self.state.offset;\n            let speed_prev = self.state.speed;\n"),
     ("harmless: sl required pwr: the inner `if` with two equal branches replaced by its value", "harmless", SL,
      "            if res_net + self.fric_brake.state.force_max_curr + f_max_dyn_fast >= si::Force::ZERO {\n"
      "                self.loco_con.state.pwr_dyn_brake_max / v_max // self.state.speed\n"
